@@ -1,14 +1,27 @@
 import XmpModel.Resource
+import XmpModel.StartFail
 /-! Native driver for the C04 correspondence: evaluates the model `Xmp.Resource` on the case lines
 produced from the traces of harness/c04_faults.c (see tools/checks/c04.py for the line protocol).
 
   startcfg                                   -> soundness of the generated unwinding tables
   start <amiga> <extras> <maxvoc> <virtch> <playing> <k>
                                              -> rc=<neg|0> state=<n> nalloc=<n> live=<kind:count,...>
+  start2 <amiga> <extras> <maxvoc> <virtch> <k> <k2>     (start failing at k, then start failing at k2 on the residue)
+                                             -> same
   release <state> <kind:count,...>           -> freed=<kind:count,...> twice=<n> missed=<n> nonnull_after=<n> state=<n>
   temp <mkstempOk> <fdopenOk> <execOk> <k>   -> rc=<neg|0> tmp=<n> fds=<n> live=<n> bad=<n>
   stream <entry> <valid> <hasClose> <sizeOk> <k> <reopens: m|f|M|F ...>
                                              -> opened=<0|1> caller=<n> owned=<n> temp=<n> cb=<n> live=<n> bad=<n> fds=<n>
+  rescan <vblankCmp> <valid> <shrink> <k>    -> n=<allocator calls> owned=<live blocks p->scan refers to> other=<n> bad=<n>
+  rescanmode <vblNew> <shrinkNew> <vblOld> <shrinkOld> <k>   xmp_set_player(XMP_PLAYER_MODE)
+                                             -> rc n owned other mode=<old|new> bad
+  closefail <entry> <j> <reopens: m|f ...>   -> opened fcloses caller live bad fds   (the j-th fclose reports an error)
+  smix <scenario> <k>                        -> rc nalloc xxi xxs chn ins subs datas live lost fds bad   (smix.c calls)
+  idle                                       -> vfr=<b> and, per failure site, whether the idle members are NULL/0 afterwards
+  fcase <id> <amiga> <extras> <maxvoc> <virtch> <k> <rate> <fmt>     (a failed xmp_start_player, member level)
+  pre <ctor> v0 v1 ...   complete context image before the call (harness/c06_image.h)
+  ext patrows r0 r1 ... | ext scan0num n
+  fend                                       -> begin <id> <site> <second> / model <ctor> v0 v1 ... (`?` = external) / done
 -/
 open Xmp Xmp.Resource
 
@@ -19,7 +32,8 @@ def kindOrder : List (Kind × String) :=
    (.insExtra, "insExtra"), (.xxs, "xxs"), (.smpData, "smpData"), (.xtra, "xtra"), (.midi, "midi"),
    (.scanCnt, "scanCnt"), (.scanRow, "scanRow"), (.scan, "scan"), (.comment, "comment"),
    (.dirname, "dirname"), (.basename, "basename"), (.modExtra, "modExtra"), (.modExtraTab, "modExtraTab"),
-   (.modExtraEnt, "modExtraEnt")]
+   (.modExtraEnt, "modExtraEnt"), (.smixXxi, "smixXxi"), (.smixXxs, "smixXxs"), (.smixSub, "smixSub"),
+   (.smixData, "smixData")]
 
 def countsStr (l : List Tok) : String :=
   let parts := kindOrder.filterMap fun (k, n) =>
@@ -95,6 +109,66 @@ def handle (ws : List String) : String :=
     -- blocks still live: when playing before, the old blocks were released by xmp_end_player inside the call
     let live := r.2.2.live
     s!"rc={rcStr r.1} state={r.2.1.state.toNat} nalloc={r.2.2.nalloc} live={countsStr live} bad={r.2.2.bad}"
+  | ["start2", amiga, extras, maxvoc, virtch, k, k2] =>
+    -- a faulted start on the residue of a failed start
+    let pp : StartParams := { amiga := b01 amiga, extras := b01 extras, maxvoc := maxvoc.toNat?.getD 0,
+                              virtch := virtch.toNat?.getD 0 }
+    let r1 := startPlayer startCfgNow pp true { state := .loaded } { oracle := oracleOf (k.toInt?.getD (-1)) }
+    let w1 := { r1.2.2 with oracle := oracleOf (k2.toInt?.getD (-1)), nalloc := 0 }
+    let r := startPlayer startCfgNow pp true r1.2.1 w1
+    s!"rc={rcStr r.1} state={r.2.1.state.toNat} nalloc={r.2.2.nalloc} live={countsStr r.2.2.live} bad={r.2.2.bad}"
+  | "closefail" :: entry :: j :: reopens =>
+    -- path/FILE load or test where the j-th fclose of an owned FILE reports an error
+    let e : Entry := match entry with | "path" => .path | "mem" => .mem | "file" => .file | _ => .cb
+    let jn := j.toNat?.getD 1000
+    let ro := reopens.filterMap fun s =>
+      match s with | "m" => some true | "f" => some false | _ => none
+    -- fclose events on owned streams in program order: one per reopen step (the old stream), then the final hio_close
+    let steps := (List.range ro.length).zip ro |>.map fun (i, toMem) => (toMem, true, e != .file && i == jn)
+    let r := streamLifeR Gen.StartCfg.reopenIgnoresCloseResult e {} true steps {}
+    let w := r.2
+    let owned := countStream w .ownedFile + countStream w .tempFile
+    s!"opened={if r.1 then 1 else 0} fcloses={owned} caller={countStream w .callerFile} live={w.live.length} bad={w.bad} fds={w.openFds}"
+  | ["rescan", vbl, valid, shrink, k] =>
+    let w0 : World := { live := [⟨.scan, 0⟩], oracle := oracleOf (k.toInt?.getD (-1)) }
+    let r := scanSequences (b01 vbl) (b01 valid) (b01 shrink) (some ⟨.scan, 0⟩) w0
+    let owned := match r.2.1 with | some t => (r.2.2.live.filter (· = t)).length | none => 0
+    s!"n={r.2.2.nalloc} owned={owned} other={r.2.2.live.length - owned} bad={r.2.2.bad}"
+  | ["rescanmode", vblNew, shrinkNew, vblOld, shrinkOld, k] =>
+    -- xmp_set_player(XMP_PLAYER_MODE): rescan under the new mode, on failure restore + rescan under the old one
+    let w0 : World := { live := [⟨.scan, 0⟩], oracle := oracleOf (k.toInt?.getD (-1)) }
+    let r := setPlayerMode { vblankCmp := b01 vblNew, shrink := b01 shrinkNew } { vblankCmp := b01 vblOld, shrink := b01 shrinkOld }
+      0 1 (some ⟨.scan, 0⟩) w0
+    let w := r.2.2.2.2
+    let owned := match r.2.2.2.1 with | some t => (w.live.filter (· = t)).length | none => 0
+    s!"rc={rcStr r.1} n={w.nalloc} owned={owned} other={w.live.length - owned} mode={if r.2.1 = 0 then "old" else "new"} bad={w.bad}"
+  | ["smix", scn, k] =>
+    -- a sound-effect mixer call after its prelude (see harness/c04_faults.c `smixfaults`)
+    let rel := Gen.StartCfg.smixLoadReleasesOld
+    let started := startSmix .loaded true 1 2 {} {}
+    let loaded := smixLoadSample 0 true true .ok rel started.2.1 started.2.2
+    let (st, s0, w0) : State × Smix × World :=
+      match scn with
+      | "start" | "startinval" => (.loaded, {}, {})
+      | "restart" | "reload" | "end" => (.loaded, loaded.2.1, loaded.2.2)
+      | "startplaying" | "endplaying" => (.playing, loaded.2.1, loaded.2.2)
+      | _ => (.loaded, started.2.1, started.2.2)
+    let w0 := { w0 with oracle := oracleOf (k.toInt?.getD (-1)) }
+    let r : Int × Smix × World :=
+      match scn with
+      | "start" | "restart" | "startplaying" => startSmix st true 2 3 s0 w0
+      | "startinval" => startSmix st false 65 3 s0 w0
+      | "load" | "reload" => smixLoadSample 0 true true .ok rel s0 w0
+      | "loadhdr" => smixLoadSample 0 true true .headerBad rel s0 w0
+      | "loadshort" => smixLoadSample 0 true true .dataShort rel s0 w0
+      | "loadrange" => smixLoadSample 5 true true .ok rel s0 w0
+      | _ => let e := endSmix st s0 w0; (0, e.1, e.2)
+    let s := r.2.1
+    let w := r.2.2
+    let owned := w.live.filter (· ∈ s.toks)
+    let lost := (w.live.filter (· ∉ s.toks)).length
+    let nn := fun (l : List (Option Tok)) => (l.filter Option.isSome).length
+    s!"rc={rcStr r.1} nalloc={w.nalloc - w0.nalloc} xxi={if s.xxi.isSome then 1 else 0} xxs={if s.xxs.isSome then 1 else 0} chn={s.chn} ins={s.ins} subs={nn s.subs} datas={nn s.datas} live={countsStr owned} lost={lost} fds={(w.openFds : Int) - w0.openFds} bad={w.bad}"
   | ["release", st, owned] =>
     let cs := parseCounts owned
     let m := moduleOf cs
@@ -120,11 +194,87 @@ def handle (ws : List String) : String :=
     s!"opened={if r.1 then 1 else 0} caller={countStream w .callerFile} owned={countStream w .ownedFile} temp={countStream w .tempFile} cb={countStream w .callback} live={w.live.length} bad={w.bad} fds={w.openFds}"
   | _ => "?"
 
-partial def loop (h : IO.FS.Stream) : IO Unit := do
+/-! ### member-level image of a failed start (XmpModel.StartFail on C06's context model) -/
+open Xmp.Gen.CtxFields in
+section
+open Xmp.Reset Xmp.StartFail
+
+/-- marks externally determined values -/
+def unk : Int := 4611686018427400000
+
+structure FCase where
+  id : String := ""
+  pp : StartParams := {}
+  k : Nat := 0
+  rate : Int := 0
+  fmt : Int := 0
+  pre : Array (Array Int) := Array.replicate 200 #[]
+  patrows : Array Int := #[]
+  scan0num : Int := 0
+  active : Bool := false
+
+def fieldByName (n : String) : Option Field := Field.all.find? (fun f => f.name == n)
+
+def FCase.ctx (c : FCase) : Reset.Ctx := fun f i =>
+  let a := c.pre.getD f.idx #[]
+  if a.size == 0 then 0 else if a.size == 1 then a[0]! else a.getD i 0
+
+def FCase.ext (c : FCase) : Ext where
+  names := fun _ => cst unk
+  loader := fun _ _ => some (cst unk)
+  quirks := fun _ _ => cst unk
+  scan := fun _ _ => cst unk
+  start := fun r f i =>
+    match f with
+    | .p_flow_num_rows => c.patrows.getD (r .m_mod_xxo i).toNat 0
+    | .p_flow_end_point => c.scan0num
+    | _ => unk
+  frameTime := fun _ _ _ => unk
+
+def showVal (v : Int) : String := if v == unk then "?" else toString v
+
+def siteName : Site → String := Site.name
+
+def emitF (c : FCase) : IO Unit := do
+  match siteOf c.pp c.k with
+  | none => IO.println s!"begin {c.id} none 0"; IO.println "done"
+  | some (site, second) =>
+    IO.println s!"begin {c.id} {site.name} {if second then 1 else 0}"
+    let s := failedStart startCfgNow c.ext c.rate c.fmt site second vfrNow c.ctx
+    for f in Field.all do
+      let n := if f.kind == .ptr then 1 else f.count
+      let vals := (List.range n).map (fun i => showVal (s f i))
+      IO.println s!"model {f.name} {" ".intercalate vals}"
+    IO.println "done"
+
+end
+
+partial def loop (h : IO.FS.Stream) (c : FCase) : IO Unit := do
   let line ← h.getLine
   if line.isEmpty then return ()
   let ws := (line.trimAscii.toString.splitOn " ").filter (· ≠ "")
-  if !ws.isEmpty then IO.println (handle ws)
-  loop h
+  match ws with
+  | ["fcase", id, amiga, extras, maxvoc, virtch, k, rate, fmt] =>
+    loop h { id := id, pp := { amiga := b01 amiga, extras := b01 extras, maxvoc := maxvoc.toNat?.getD 0,
+                               virtch := virtch.toNat?.getD 0 },
+             k := k.toNat?.getD 0, rate := rate.toInt?.getD 0, fmt := fmt.toInt?.getD 0, active := true }
+  | "pre" :: name :: vals =>
+    if !c.active then loop h c else
+    match fieldByName name with
+    | some f => loop h { c with pre := c.pre.set! f.idx (vals.map (fun v => v.toInt?.getD 0)).toArray }
+    | none => loop h c
+  | "ext" :: "patrows" :: vals => loop h { c with patrows := (vals.map (fun v => v.toInt?.getD 0)).toArray }
+  | ["ext", "scan0num", v] => loop h { c with scan0num := v.toInt?.getD 0 }
+  | ["fend"] =>
+    if c.active then emitF c
+    loop h {}
+  | ["idle"] =>
+    let parts := allSites.map fun s => s!"{s.name}:{Xmp.StartFail.idleAfter startCfgNow s Xmp.StartFail.vfrNow}"
+    IO.println s!"vfr={Xmp.StartFail.vfrNow} idle={",".intercalate parts}"
+    loop h c
+  | [] => loop h c
+  | _ =>
+    IO.println (handle ws)
+    loop h c
 
-def main : IO Unit := do loop (← IO.getStdin)
+def main : IO Unit := do loop (← IO.getStdin) {}
